@@ -307,10 +307,14 @@ func (s *linkParser) parseLink(parent ast.Node, last *linkLabelState, block text
 		if !ok {
 			return nil
 		}
-		block.SkipSpaces()
+		_, spaces, _ := block.SkipSpaces()
 		if block.Peek() == ')' {
 			block.Advance(1)
 		} else {
+			if spaces == 0 {
+				// a title is separated from the destination by white space
+				return nil
+			}
 			title, ok = parseLinkTitle(block)
 			if !ok {
 				return nil
